@@ -203,7 +203,7 @@ def run(ctx):
                             same = c2 is not None and any(c.a["bb"] == cost_call_bb for c in charge_parts(k2)[0]) and charge_parts(k2)[1] == extra
                             ctx.ob("R2", "size-increment-is-the-compared-cost", same, "current_size must grow by exactly the cost that was compared against the limit (one call of the cost function, the same overhead); increment: %s" % wo.fmt(), fn=f, where=prim.site(f, wb, ws), how="value numbering (same call site)")
                         ca = calls[0].kids[0]
-                        ctx.ob("R2", "size-cost-of-this-arg", any(x.k == "arg" and x.a["name"] == "arg" for x in ca.walk()), "the cost is computed from %s" % ca.fmt(), fn=f, how="provenance slice")
+                        ctx.ob("R2", "size-cost-of-this-arg", any(x.k == "arg" and x.a["name"] == "arg" for x in prim.expand_single_def_vars(f, ca, depth=6).walk()), "the cost is computed from %s" % ca.fmt(), fn=f, how="provenance slice")
                         continue
                 # the per-argument bound (contract K1): cost(this arg) <= self.<max single argument>
                 calls, extra, other = charge_parts(lhs)
@@ -281,6 +281,10 @@ def run(ctx):
         g = C.G(prim.event_graph(tnf, role))
         ie = g.nodes("is_empty")
         ok = len(ie) == 1 and g.succ(ie[0], "else") == ["RET(agg:Result::Ok)"] and all(C.base(x) == "split" for x in g.succ(ie[0], "0"))
+        if not ie:
+            # `match limiters.split_first_mut() { None => Ok(arg), Some((first, rest)) => first.try_arg(arg, rest) }`
+            sp_ = [x for x in g.nodes("split") if any(t_.j.get("callee_name") == "split_first_mut" for _, t_ in tnf.calls())]
+            ok = len(sp_) == 1 and g.succ(sp_[0], "0") == ["RET(agg:Result::Ok)"] and bool(g.succ(sp_[0], "1")) and all(C.base(x) == "first.try_arg" for x in g.succ(sp_[0], "1"))
         ctx.ob("R1", "cursor-chain", ok and bool(g.nodes("first.try_arg")), "LimiterCursor::try_next: no limiter left => Ok(arg); otherwise the first limiter is asked with a cursor over the rest; events: %s" % g.fmt(), fn=tnf, how="event graph")
         for b, t in tnf.calls():
             if role(t) == "split":
